@@ -300,9 +300,12 @@ def ref_format(v, cmap, rec, depth):
             # expression binds itself (:=) live for this one evaluation only
             try:
                 scope = {k: pv.to_py(x) for k, x in cmap.items() if isinstance(k, str)}
-                return pv.Canon()(eval(pv.render_expr(v['py']), {}, scope))
+                out = pv.Canon()(eval(pv.render_expr(v['py']), {}, scope))
             except Exception:
                 raise RefUnsupported()
+            if _has_obj(out):
+                raise RefUnsupported()      # opaque objects are compared by identity elsewhere
+            return out
         if 'l' in v:
             return {'l': [ref_format(x, cmap, rec, depth + 1) for x in v['l']]}
         if 't' in v:
